@@ -1,6 +1,7 @@
 package gosym
 
 import (
+	"crypto/sha256"
 	"encoding/hex"
 	"fmt"
 	"math/big"
@@ -291,6 +292,10 @@ func registerSDK2(P *Program) {
 	}
 	P.reg("github.com/cosmos/cosmos-sdk/types/msgservice.RegisterMsgServiceDesc", nop)
 	registerRegexp(P)
+	const pt = "github.com/cosmos/cosmos-sdk/x/params/types"
+	P.reg("("+pt+".KeyTable).RegisterParamSet", func(it *Interp, a []Value) Value { return a[0] })
+	P.reg("("+pt+".Subspace).WithKeyTable", func(it *Interp, a []Value) Value { return a[0] })
+	P.reg("("+pt+".Subspace).HasKeyTable", func(it *Interp, a []Value) Value { return true })
 	P.reg("zzverif.Codec", func(it *Interp, a []Value) Value { return blobCodec })
 	P.reg("github.com/cosmos/gogoproto/proto.Clone", func(it *Interp, a []Value) Value {
 		iv, ok := a[0].(*IfaceV)
@@ -385,6 +390,10 @@ func registerCrypto(P *Program) {
 		}
 		return h.Sum(nil)
 	}
+	P.reg("crypto/sha256.Sum256", func(it *Interp, a []Value) Value {
+		h := sha256.Sum256(it.concBytes(a[0]))
+		return it.mkByteArray(h[:])
+	})
 	P.reg(gc+"Keccak256", func(it *Interp, a []Value) Value { return it.mkBytes(keccak(it, a)) })
 	P.reg(gc+"Keccak256Hash", func(it *Interp, a []Value) Value { return it.mkByteArray(keccak(it, a)) })
 }
